@@ -147,6 +147,7 @@ def c20(run):
                       depth=14, seed=run.seed, workers=8, coverage=False)
     run.add_tlc("MC_C20(simulate,ops<=9)", res)
     rstw.replay(run, res.lines.get("BEH", []), run.seed + 1, limit=6000 if q else 60000)
+    rstw.fixed_cases(run)
     # binding B: the writer calls of real pipeline runs (random modules, the repository's samples) replayed by TLC
     import rstwtrace
     rstwtrace.run(run, run.seed, 60 if q else 800)
